@@ -51,6 +51,10 @@ class PyView:
     # ---- symbolic
     def sym(self, ctx: Ctx, fn: str, **kw):
         """-> (dict slot -> z3 term (column 0), length, executor)"""
+        if fn in self.mod.donated:
+            raise ArtefactError("InputDonated", f"{fn} is decorated with {self.mod.donated[fn]}: the call deletes the caller's array")
+        if fn in self.mod.other_decorators:
+            raise Unsupported(f"decorator {self.mod.other_decorators[fn]} on {fn}")
         jax = self.backend == "jax" and fn in self.mod.jit
         res, px = pysym.exec_function(ctx, self.mod, fn, jax_traced=jax, **kw)
         if not isinstance(res, pysym.Arr):
@@ -134,6 +138,10 @@ exec(compile(p["code"], "<emitted>", "exec"), ns)
 args = [jnp.array(a, dtype=jnp.float64) if isinstance(a, list) else a for a in p["args"]]
 res = ns[p["fn"]](*args)
 import numpy
+# a caller may read its own arrays after the call (a donated buffer raises here)
+for a in args:
+    if hasattr(a, "shape"):
+        numpy.asarray(a)
 print("RESULT" + json.dumps([float(x) for x in numpy.asarray(res).ravel()]))
 """
         p = subprocess.run([sys.executable, "-c", script], input=json.dumps(payload), capture_output=True,
